@@ -746,7 +746,7 @@ class Plucker(SMUserList):
             w2, v2 = l2.uw, l2.v / np.linalg.norm(l2.w)
             w = np.cross(w1, w2)
             v = np.cross(v1, w2) - np.cross(v2, w1) + \
-                (np.dot(w1, v2) + np.dot(w2, v1)) * np.dot(w1, w2) * base.unitvec(w)
+                (np.dot(w1, v2) + np.dot(w2, v1)) * np.dot(w1, w2) * w / np.dot(w, w)
         return Plucker(v, w)
 
 
